@@ -70,7 +70,7 @@ def load_regress(prefix):
 
 
 def store_check(prop, model_cfgs, gen_cfgs, quick_n, thorough_n, kinds_note, invs, extra_behaviours=None, assumptions=(),
-                filt=None, selftest=None, relevant=None):
+                filt=None, selftest=None, relevant=None, counterexamples=()):
     """generic body: model_cfgs [(cfg, heap)] exhaustive; gen_cfgs [cfg] edge-cover export; sample sizes per tier."""
     res = V.Result(prop)
     sc = V.Scratch(prop)
@@ -95,6 +95,7 @@ def store_check(prop, model_cfgs, gen_cfgs, quick_n, thorough_n, kinds_note, inv
         with cf.ThreadPoolExecutor(max_workers=len(jobs)) as ex:
             results = list(ex.map(run, jobs))
         mcs = [r for (k, _), r in zip(jobs, results) if k == "mc"]
+        cex = [V.model_counterexample("Store.tla", c, inv, sc, timeout=900) for c, inv in counterexamples]
         if rb is None:
             for (k, cfg), r in zip(jobs, results):
                 if k != "gen":
@@ -154,7 +155,7 @@ def store_check(prop, model_cfgs, gen_cfgs, quick_n, thorough_n, kinds_note, inv
                  "tier) + regression behaviours of fixed findings; evaluations = operations replayed into the real store, each followed by "
                  "a full named snapshot judged by TLC; non-trivial = distinct behaviours with at least two operations",
             models=[dict(cfg=m["cfg"], states=m["distinct"], transitions=m["generated"], depth=m["depth"], wall_s=m["wall_s"]) for m in mcs],
-            model_invariants=invs, generators=gstats, kinds=kinds_note,
+            model_invariants=invs, defect_models=cex, generators=gstats, kinds=kinds_note,
             ops=dict(process=nproc, with_fault=nfault, reorg=nreorg, restart=sum(1 for b in behs for o in b["ops"] if o["op"] == "restart")),
             monitor=dict(spec="StoreTrace.tla", lines=info["stats"]["distinct"], wall_s=info["wall_s"]),
             regression_behaviours=len(reg),
